@@ -14,6 +14,27 @@ pub trait ByteArray<const LENGTH: usize>: Bytes {
     fn as_array(&self) -> &[u8; LENGTH];
 }
 
+/// Returns the fixed-length array held by `item`, an item received from
+/// elsewhere (a MAC, a signature, a box tag). Containers without a length of
+/// their own (`Vec<u8>`, slices) hold whatever was received: anything but
+/// exactly `LENGTH` bytes is an error, not a reason to panic or to look at a
+/// prefix only.
+pub(crate) fn received_array<'a, const LENGTH: usize, T: ByteArray<LENGTH> + ?Sized>(
+    item: &'a T,
+    what: &str,
+) -> Result<&'a [u8; LENGTH], crate::error::Error> {
+    if item.as_slice().len() != LENGTH {
+        Err(dryoc_error!(format!(
+            "invalid {} length {}, expecting {}",
+            what,
+            item.as_slice().len(),
+            LENGTH
+        )))
+    } else {
+        Ok(item.as_array())
+    }
+}
+
 /// Arbitrary-length array of bytes.
 pub trait Bytes {
     /// Returns a slice of the underlying bytes.
